@@ -7,7 +7,12 @@ import (
 	"path/filepath"
 	"reflect"
 	"strings"
+	"syscall"
 	"time"
+
+	"google.golang.org/grpc"
+
+	pb "github.com/akrennmair/updog/proto/updog/v1"
 
 	"github.com/akrennmair/updog/verifharness/gen"
 	"github.com/akrennmair/updog/verifharness/ix"
@@ -228,4 +233,114 @@ func c13StmtLifecycles(r *vf.Run, sid string, gdb, fdb *sql.DB, ds *gen.Dataset)
 	r.Distinct(cid)
 	r.Count("statement_lifecycle_histories", 1)
 	_ = reflect.DeepEqual
+}
+
+// c13Shutdown (round 7): a termination signal arrives while a large batch is being answered. The client either gets an
+// error (the connection breaks, the call is refused) or the complete, correct response -- never a response whose
+// results were computed while the index was going away. Signals: SIGTERM and SIGINT, after 20..600 ms of a batch that
+// takes longer than that (tens of thousands of comparisons against values read on demand, no cache).
+func c13Shutdown(r *vf.Run) {
+	did := "shutdown"
+	if !r.Want(did) {
+		return
+	}
+	ds := &gen.Dataset{ID: did}
+	nvals := 4000
+	for i := 0; i < 3*nvals; i++ {
+		ds.Rows = append(ds.Rows, oracle.Row{"v": fmt.Sprintf("value-%05d", i%nvals), "w": fmt.Sprint(i % 7)})
+	}
+	ds.Index()
+	dir := filepath.Join(r.Scratch, did)
+	mustMkdir(dir)
+	path := filepath.Join(dir, "srv.updog")
+	if err := ix.Build(ix.Writers[int(r.Seed)%3], path, ds.Rows); err != nil {
+		r.Violation(did, "build", err.Error())
+		return
+	}
+	nq := r.Pick(60000, 200000)
+	req := &pb.QueryRequest{}
+	qs := make([]c04Query, 0, nq)
+	for i := 0; i < nq; i++ {
+		e := oracle.Eq("v", fmt.Sprintf("value-%05d", (i*37)%nvals))
+		var gb []string
+		want := oracle.Answer{Count: 3}
+		if i%50 == 7 {
+			gb = []string{"w"}
+			want = oracle.Eval(ds.Rows, ds.Cols, e, gb)
+		}
+		qs = append(qs, c04Query{E: e, GB: gb, Want: want})
+		req.Queries = append(req.Queries, &pb.Query{Expr: e.ToProto(), GroupBy: gb})
+	}
+	type trial struct {
+		sig   syscall.Signal
+		after time.Duration
+		args  []string
+	}
+	var trials []trial
+	for i, ms := range []int{20, 60, 150, 300, 600, 100} {
+		sig := syscall.SIGTERM
+		if i%2 == 1 {
+			sig = syscall.SIGINT
+		}
+		args := []string{"--enable-cache=false"}
+		if i == 5 {
+			args = nil // default cache
+		}
+		trials = append(trials, trial{sig, time.Duration(ms) * time.Millisecond, args})
+	}
+	for ti, t := range trials {
+		cid := fmt.Sprintf("%s/%s-after-%dms", did, map[syscall.Signal]string{syscall.SIGTERM: "SIGTERM", syscall.SIGINT: "SIGINT"}[t.sig], t.after.Milliseconds())
+		if !r.Want(cid) {
+			continue
+		}
+		sp, err := startServer(r, binPath("updog"), path, t.args, nil)
+		if err != nil {
+			r.Inconclusive(cid + ": " + err.Error())
+			continue
+		}
+		conn, cl, err := dial(sp.addr)
+		if err != nil {
+			sp.stop()
+			r.Inconclusive(cid + ": dial: " + err.Error())
+			continue
+		}
+		// a small request first: the connection is up and the server answers
+		if _, err := cl.Query(context.Background(), &pb.QueryRequest{Queries: req.Queries[:3]}); err != nil {
+			r.Violation(cid, "rpc-error-for-valid-batch", map[string]any{"error": err.Error(), "step": "warm-up request before the signal"})
+			conn.Close()
+			sp.stop()
+			continue
+		}
+		type outcome struct {
+			resp *pb.QueryResponse
+			err  error
+		}
+		ch := make(chan outcome, 1)
+		go func() {
+			ctx, cancel := context.WithTimeout(context.Background(), 120*time.Second)
+			defer cancel()
+			resp, err := cl.Query(ctx, req, grpc.MaxCallRecvMsgSize(256<<20))
+			ch <- outcome{resp, err}
+		}()
+		time.Sleep(t.after)
+		_ = syscall.Kill(sp.pid, t.sig)
+		o := <-ch
+		r.Eval(1)
+		w := map[string]any{"signal": t.sig.String(), "sent_after_ms": t.after.Milliseconds(), "batch_size": nq, "server_options": fmt.Sprint(t.args), "trial": ti}
+		switch {
+		case o.err != nil:
+			r.Count("shutdown_trials_ending_in_an_rpc_error", 1)
+		default:
+			if d := compareBatch(o.resp, qs, nil); d != "" {
+				w["difference"] = d
+				w["explanation"] = "the call returned a response after the server was told to terminate, and the response is wrong"
+				r.Violation(cid, "wrong-response-during-shutdown", w)
+			} else {
+				r.Count("shutdown_trials_answered_completely", 1)
+			}
+		}
+		conn.Close()
+		sp.stop()
+		r.Distinct(cid)
+	}
 }
